@@ -80,27 +80,95 @@ Proof.
     rewrite !rdot_cons. pose proof (clamp_nearest a c b H3 H1). specialize (IH y bs H4 ltac:(congruence) H2). lra.
 Qed.
 
-(* project_onto_tr: in the box whatever the root finder returns; within the radius when the residual f(t) <= 0;
-   unchanged (the plain projection) when that is already inside *)
-Theorem project_onto_tr_props x xk bs D t : wf_box bs -> length x = length bs -> length xk = length bs ->
+(* clipping never moves a point away from a point of the box: |P y - c| <= |y - c| for feasible c *)
+Lemma clamp_toward y c b : in_bound b c -> (clampR y b - c) * (clampR y b - c) <= (y - c) * (y - c).
+Proof. intros [A B]. clamp_cases b; nra. Qed.
+Lemma project_toward y c bs : in_box bs c -> length y = length bs ->
+  rsub (projectR y bs) c ⋅ rsub (projectR y bs) c <= rsub y c ⋅ rsub y c.
+Proof.
+  revert c bs; induction y as [|a y IH]; intros [|c0 c] [|b bs] H E; simpl in E, H; try discriminate; try contradiction.
+  - cbn. unfold_num. q2r. lra.
+  - destruct H as [H1 H2].
+    change (projectR (a :: y) (b :: bs)) with (clampR a b :: projectR y bs).
+    change (rsub (clampR a b :: projectR y bs) (c0 :: c)) with ((clampR a b - c0) :: rsub (projectR y bs) c).
+    change (rsub (a :: y) (c0 :: c)) with ((a - c0) :: rsub y c).
+    rewrite !rdot_cons. pose proof (clamp_toward a c0 b H1). specialize (IH c bs H2 ltac:(congruence)). lra.
+Qed.
+Lemma rsub_raxpy_self c s d : length d = length c -> rsub (raxpy c s d) c ⋅ rsub (raxpy c s d) c = s * s * (d ⋅ d).
+Proof.
+  revert d; induction c as [|c0 c IH]; intros [|d0 d] E; simpl in E; try discriminate.
+  - cbn. unfold_num. q2r. lra.
+  - change (raxpy (c0 :: c) s (d0 :: d)) with ((c0 + s * d0) :: raxpy c s d).
+    change (rsub ((c0 + s * d0) :: raxpy c s d) (c0 :: c)) with ((c0 + s * d0 - c0) :: rsub (raxpy c s d) c).
+    rewrite !rdot_cons, IH by congruence. lra.
+Qed.
+
+(* the pull-back of repo fix F15: for EVERY point p of the box (whatever the root finder returned), a feasible centre xk and a
+   radius D >= 0 the result is in the box AND within the radius *)
+Theorem pull_back_props p xk bs D : wf_box bs -> in_box bs xk -> in_box bs p -> 0 <= D ->
+  let q := @pull_back R NumR p xk bs D in
+  in_box bs q /\ rsub q xk ⋅ rsub q xk <= D * D.
+Proof.
+  intros W Hk Hp HD. cbv zeta. unfold pull_back.
+  pose proof (in_box_length _ _ Hk) as Lk. pose proof (in_box_length _ _ Hp) as Lp.
+  set (d := rsub p xk).
+  assert (Ld : length d = length xk).
+  { unfold d. pose proof (len_rsub (length bs) p xk Lp Lk) as L. unfold len in L. congruence. }
+  pose proof (rdot_self_nonneg d) as Hdd.
+  unfold vnorm. fold (rdot d d). unfold_num.
+  destruct (Rltb D (sqrt (d ⋅ d))) eqn:C.
+  - apply Rltb_true in C.
+    assert (Ly : length (raxpy xk (D / sqrt (d ⋅ d)) d) = length bs).
+    { pose proof (len_raxpy (length bs) xk (D / sqrt (d ⋅ d)) d Lk ltac:(unfold len; congruence)) as L. exact L. }
+    split; [apply project_in_box; assumption|].
+    eapply Rle_trans; [apply project_toward; assumption|].
+    rewrite rsub_raxpy_self by assumption.
+    assert (Hs : 0 < sqrt (d ⋅ d)) by lra.
+    pose proof (sqrt_sqrt _ Hdd) as SS. set (S := sqrt (d ⋅ d)) in *.
+    rewrite <- SS. right. field. lra.
+  - apply Rltb_false in C. split; [assumption|].
+    fold d. rewrite <- (sqrt_sqrt (d ⋅ d)) by assumption.
+    apply Rmult_le_compat; try apply sqrt_pos; assumption.
+Qed.
+
+(* in the box for every root-finder answer, every centre and every radius (no feasibility of xk needed) *)
+Lemma pull_back_in_box p xk bs D : wf_box bs -> length xk = length bs -> in_box bs p -> in_box bs (@pull_back R NumR p xk bs D).
+Proof.
+  intros W Lk Hp. unfold pull_back. pose proof (in_box_length _ _ Hp) as Lp.
+  destruct (nltb D (vnorm (vsub p xk))); [|exact Hp].
+  apply project_in_box; [assumption|].
+  pose proof (len_rsub (length bs) p xk Lp Lk) as L1.
+  exact (len_raxpy (length bs) xk _ (rsub p xk) Lk L1).
+Qed.
+Theorem project_onto_tr_in_box x xk bs D t : wf_box bs -> length x = length bs -> length xk = length bs ->
+  in_box bs (@project_onto_tr R NumR x xk bs D t).
+Proof.
+  intros W Ex Ek. unfold project_onto_tr. destruct (needs_root_find x xk bs D); [|apply project_in_box; assumption].
+  apply pull_back_in_box; [assumption|assumption|]. apply project_in_box; [assumption|].
+  pose proof (len_rsub (length bs) x xk Ex Ek) as L1.
+  exact (len_raxpy (length bs) xk t (rsub x xk) Ek L1).
+Qed.
+
+(* project_onto_tr: in the box whatever the root finder returns; since repo fix F15 ALSO within the radius whatever the root
+   finder returns (feasible centre, radius >= 0); unchanged (the plain projection) when that is already inside *)
+Theorem project_onto_tr_props x xk bs D t : wf_box bs -> length x = length bs -> in_box bs xk -> 0 <= D ->
   let p := @project_onto_tr R NumR x xk bs D t in
   in_box bs p /\
-  (@needs_root_find R NumR x xk bs D = false -> p = projectR x bs /\ rsub p xk ⋅ rsub p xk <= D * D) /\
-  (@tr_residual R NumR x xk bs D t <= 0 -> rsub p xk ⋅ rsub p xk <= D * D).
+  (@needs_root_find R NumR x xk bs D = false -> p = projectR x bs) /\
+  rsub p xk ⋅ rsub p xk <= D * D.
 Proof.
-  intros W Ex Ek. cbv zeta. unfold project_onto_tr.
+  intros W Ex Hk HD. cbv zeta. unfold project_onto_tr.
+  pose proof (in_box_length _ _ Hk) as Ek.
   assert (Hnr : @needs_root_find R NumR x xk bs D = false -> rsub (projectR x bs) xk ⋅ rsub (projectR x bs) xk <= D * D).
   { unfold needs_root_find. unfold_num. intros H. apply negb_false_iff in H. apply Rleb_true in H. exact H. }
   destruct (needs_root_find x xk bs D) eqn:N.
-  - split.
+  - assert (Hp : in_box bs (projectR (raxpy xk t (rsub x xk)) bs)).
     { apply project_in_box; [assumption|].
-      unfold vaxpy, vadd, vscale, vsub.
-      assert (L : forall (a c : rvec), length a = length c -> forall f, length (vmap2 f a c) = length a).
-      { induction a as [|? a IHa]; intros [|? c] E f; simpl in *; try discriminate; auto. }
-      rewrite L; [congruence|]. rewrite map_length, L; congruence. }
-    split; [discriminate|]. unfold tr_residual. unfold_num. intros H. lra.
-  - split; [apply project_in_box; assumption|]. split; [intros _; split; [reflexivity|apply Hnr; reflexivity]|].
-    intros _. apply Hnr; reflexivity.
+      pose proof (len_rsub (length bs) x xk Ex Ek) as L1.
+      exact (len_raxpy (length bs) xk t (rsub x xk) Ek L1). }
+    pose proof (pull_back_props _ xk bs D W Hk Hp HD) as H. cbv zeta in H. destruct H as [H1 H2].
+    split; [exact H1|]. split; [discriminate|exact H2].
+  - split; [apply project_in_box; assumption|]. split; [intros _; reflexivity|apply Hnr; reflexivity].
 Qed.
 
 (* a convex combination of two feasible points is feasible: the SPG update xNew + alpha (P - xNew), 0 <= alpha <= 1 *)
